@@ -14,3 +14,5 @@ import QlibcModel.Props.C16
 #print axioms Qlibc.Props.C16.hex_roundtrip
 #print axioms Qlibc.Props.C16.hex_decode_cases
 #print axioms Qlibc.Props.C16.query_roundtrip
+#print axioms Qlibc.Props.C16.query_roundtrip_any_sep
+#print axioms Qlibc.Props.C16.sep_admissible
